@@ -436,3 +436,22 @@ def injective_rows(w, n):
         return QForall(0, n, lambda i: RowPos(arr, n, z3.Select(arr, i)) == i)
     return forall(0, n, lambda i: forall(i + 1, n, lambda j: Not(eq(w.rowid(i), w.rowid(j)))),
                   as_hypothesis=hyp if is_sym(n) else None)
+
+
+# ---- digit strings (ANSI parameters) -------------------------------------------------------------------
+if z3 is not None:
+    IsDigits = z3.Function('IsDigits', z3.StringSort(), z3.BoolSort())
+    IntOf = z3.Function('IntOf', z3.StringSort(), z3.IntSort())
+
+
+def is_digits(s):
+    """s consists of decimal digits only (what int() accepts without sign or spaces)"""
+    if is_sym(s):
+        return IsDigits(s)
+    return len(s) > 0 and all(c in '0123456789' for c in s)
+
+
+def int_of(s):
+    if is_sym(s):
+        return IntOf(s)
+    return int(s)
